@@ -738,10 +738,10 @@ func monitorStep(scn Scn, tr *Trace, src *source, fulls []*fullCall, waitingLive
 		}
 	}
 	// a live consumer is waiting at quiescence: nothing may be held back from it
-	// (a source Close that is still running — it takes time, the script has not let it return — is
-	// the environment's turn: what the stream does only after it is not overdue yet)
-	if waitingLive && !fpend && !closeCalled && src.inClose == 0 {
-		if src.term != "" {
+	if waitingLive && !fpend && !closeCalled {
+		// (a source Close that is still running — it takes time, the script has not let it return — is
+		// the environment's turn: a report the stream makes only after it is not overdue yet)
+		if src.term != "" && src.inClose == 0 {
 			tr.add("c11-end-not-reported", fmt.Sprintf("the source ended (%s) at t=%d, a Next call with a live context is still blocked at t=%d with every goroutine idle", src.term, src.termAt, now))
 			if src.term == "err" {
 				tr.add("c08-error-not-reported", "the source failed and a Next call with a live context stays blocked")
